@@ -378,6 +378,14 @@ def build(active_known=frozenset()):
     from contracts import c10_analyzer
 
     c10_analyzer.add_analyzer(pack, private)
+    # Var.set_dynamic: Var.intern calls it on every re-definition; that it leaves the thread-local bindings of a Var that
+    # stays dynamic alone is what makes "reading sees the thread binding" survive a re-`def` (contract shared with C11)
+    from contracts import c11_bindings
+
+    n0 = len(pack.contracts)
+    c11_bindings.add_set_dynamic(pack)
+    for c_ in pack.contracts[n0:]:
+        c_.setup_.insert(0, c11_bindings.setup) if c11_bindings.setup not in c_.setup_ else None
     return pack
 
 
